@@ -1,5 +1,6 @@
 //! C31 harness: loading any configuration never crashes.
-//!   c31 corr   --seed S --n N [--corpus DIR]  -> JSON lines: implementation observations (load_configs_raw results, processed paths)
+//!   c31 corr   --seed S --n N [--corpus DIR] [--mode merge]  -> JSON lines: implementation observations (load_configs_raw results,
+//!                                              processed paths; --mode merge: multi-file mixed-spelling cases for C32)
 //!   c31 search --seed S --n N [--corpus DIR]  -> JSON lines: violations of the property oracle + {"summary":…}
 //!   c31 one    --case-json '{…}'              -> observation + violations of one case (replay)
 //! Case kinds: {"kind":"load","files":[…],"partials":[…]} and {"kind":"paths","ws":…,"roots":[…],…} (see c31_common.rs).
@@ -199,8 +200,19 @@ fn main() {
                 }
                 println!("{}", observe(&mut sc, c, &lr));
             }
+            let merge_mode = args.str("mode", "") == "merge";
             for i in 0..n {
-                let c = if i % 3 == 2 {
+                let c = if merge_mode {
+                    // C32: two or three files carrying typed settings in mixed spellings
+                    let nf = 2 + rng.below(2);
+                    let files: Vec<Value> = (0..nf)
+                        .map(|_| {
+                            let s = gen_settings(&mut rng, 6);
+                            json_file(render(&mut rng, &s, 2))
+                        })
+                        .collect();
+                    json!({"kind":"load","files":files,"partials":[]})
+                } else if i % 3 == 2 {
                     let mut c = gen_path_case(&mut rng);
                     c["kind"] = json!("paths");
                     c
